@@ -397,6 +397,15 @@ func ResolveRenames(p *Prog, path string) {
 		}
 	}
 	sort.Slice(missingTypes, func(i, j int) bool { return missingTypes[i].Name < missingTypes[j].Name })
+	unstableName := map[string]bool{}
+	for _, mt := range missingTypes {
+		unstableName[mt.Name] = true
+	}
+	for k, ct := range curTypes {
+		if _, existed := snapTypes[k]; !existed {
+			unstableName[ct.Name] = true
+		}
+	}
 	for _, mt := range missingTypes {
 		best, second := -1.0, -1.0
 		var bestT declType
@@ -407,12 +416,17 @@ func ResolveRenames(p *Prog, path string) {
 			}
 			ctTok := append(typeTokens(ct), methodsOf(cur.Funcs, ct.Pkg, ct.Name)...)
 			// self references differ by the very rename: neutralise both names
+			// several types may be renamed at once: every identifier that is a vanished or a
+			// new type name is neutralised, the type's own name first
 			norm := func(toks []string, self string) []string {
 				out := make([]string, len(toks))
 				for i, s := range toks {
 					out[i] = identRE.ReplaceAllStringFunc(s, func(m string) string {
 						if m == self {
 							return "SELF"
+						}
+						if unstableName[m] {
+							return "RENAMED"
 						}
 						return m
 					})
